@@ -9,6 +9,9 @@ package c04
 //     everything is UTF-8; remote-write when everything is UTF-8), alone and in one body
 //     together with other streams, as a log line and as a metric point,
 //   * under a name spelling that sanitises to the same set ('.' for a '_'),
+//   * inside large (>= 200 KiB) Loki JSON stream-form bodies, as the first stream and
+//     between other streams (the decoder refills its read buffer several times between the
+//     label object and the end of the values),
 //   * under a value spelling that differs only behind the 100-byte cap of sanitizeLabels
 //     (gen.SameSanitized: by the documented sanitisation the same stored set),
 // and its adversarial neighbours (gen.Neighbours: a character moved across the name/value
@@ -24,6 +27,7 @@ package c04
 
 import (
 	"fmt"
+	"strings"
 	"time"
 	"unicode/utf8"
 
@@ -224,6 +228,33 @@ func predIdentity(c identityCase, o *evid.Obs) error {
 		}}
 		pushes = append(pushes, push{"loki-json v1, between two chunks of another stream", gen.LokiJSON, b, 1})
 		o.Tag("shared-body")
+	}
+	// S inside large Loki JSON "stream"-form bodies (>= 200 KiB): the decoder refills its
+	// 64 KiB read buffer several times between the stream's label object and the end of its
+	// values; fingerprint and label document must equal the small-body ones (labels that are
+	// views into the decoder's buffer would not survive the refills). A third of the cases.
+	if c.Perms[0]%3 == 0 && gen.CanonKey(gen.Sanitized(c.Other)) != gen.CanonKey(gen.Sanitized(S)) {
+		lines := func(base, n int) []gen.Entry {
+			out := make([]gen.Entry, n)
+			for i := range out {
+				out[i] = entry(gen.KindLog, base+i, 0)
+				out[i].Line = evid.Str(fmt.Sprintf("big-%d-", base+i) + strings.Repeat("l", 1500))
+			}
+			return out
+		}
+		first := gen.Body{Sets: [][]gen.Label{S, c.Other}, Chunks: []gen.Chunk{
+			{Set: 0, Perm: c.Perms[0], Entries: lines(1000, 150)},
+			{Set: 1, Perm: 1, Entries: lines(2000, 10)},
+		}}
+		middle := gen.Body{Sets: [][]gen.Label{c.Other, S}, Chunks: []gen.Chunk{
+			{Set: 0, Perm: 1, Entries: lines(3000, 50)},
+			{Set: 1, Perm: c.Perms[0] + 1, Entries: lines(4000, 140)},
+			{Set: 0, Perm: 2, Entries: lines(5000, 10)},
+		}}
+		pushes = append(pushes,
+			push{"loki-json v1, first stream of a 240 KiB body", gen.LokiJSON, first, 0},
+			push{"loki-json v1, between other streams of a 300 KiB body", gen.LokiJSON, middle, 1})
+		o.Tag("large-body")
 	}
 	// a spelling that sanitises to the same set
 	if al, ok := gen.AliasSpelling(S); ok {
